@@ -90,7 +90,7 @@ Section Eqs.
       | _ => false
       end.
   Proof.
-    cbn [conf]. f_equal. destruct t as [k|c0|e]; try reflexivity. f_equal.
+    cbn [conf]. f_equal. destruct t as [k|k|c0|e]; try reflexivity. f_equal.
     destruct (dflat U d) as [ffs|]; [|reflexivity].
     revert ffs. induction fs as [|x s IH]; intros [|f r]; try reflexivity.
     cbn [mconf]. unfold member_conf. f_equal. apply IH.
@@ -182,9 +182,11 @@ Section Enc.
     clear Hresp Hkey Hleaf Hpoly.
     destruct v as [|l|d fs|xs|j]; try discriminate.
     - cbn [conf senc]. destruct t; try (rewrite andb_false_r; discriminate).
-      intros H. apply andb_true_iff in H as [_ H]. apply sleaf_nonnull, H.
+      + intros H. apply andb_true_iff in H as [_ H]. apply sleaf_nonnull, H.
+      + intros H. apply andb_true_iff in H as [_ H]. apply andb_true_iff in H as [H _].
+        apply sleaf_nonnull, H.
     - rewrite conf_obj, senc_obj. intros H. apply andb_true_iff in H as [_ H].
-      destruct t as [|c0|]; try discriminate. apply andb_true_iff in H as [_ H].
+      destruct t as [| |c0|]; try discriminate. apply andb_true_iff in H as [_ H].
       destruct (dflat U d) as [ffs|] eqn:Hd; [|discriminate].
       pose proof (wf_cls _ _ _ Hwf Hd) as Hc. unfold cls_wf in Hc. rewrite Hd in Hc.
       destruct (dname U d); [|discriminate]. unfold sbody'.
@@ -341,10 +343,12 @@ Section Enc.
   Proof.
     intros HPm IH t x fuel Hd Hc Hf. destruct x as [|l|d fs|xs|j]; try discriminate.
     - (* a leaf *)
-      cbn [conf negb andb] in Hc. destruct t as [k|c0|e]; try discriminate.
-      unfold tdv_with, poly_target. destruct (c_poly c); cbn [senc]; apply Hleaf, Hc.
+      cbn [conf negb andb] in Hc. destruct t as [k|k|c0|e]; try discriminate.
+      + unfold tdv_with, poly_target. destruct (c_poly c); cbn [senc]; apply Hleaf, Hc.
+      + apply andb_true_iff in Hc as [Hc _].
+        unfold tdv_with, poly_target. destruct (c_poly c); cbn [senc]; apply Hleaf, Hc.
     - (* an object *)
-      rewrite conf_obj in Hc. cbn [negb andb] in Hc. destruct t as [k|c0|e]; try discriminate.
+      rewrite conf_obj in Hc. cbn [negb andb] in Hc. destruct t as [k|k|c0|e]; try discriminate.
       apply andb_true_iff in Hc as [Hcls Hm].
       destruct (dflat U d) as [ffs|] eqn:Hdf; [|discriminate].
       assert (Hpt : poly_target c U (DRef c0) (DObj d fs) = DRef d).
@@ -367,7 +371,7 @@ Section Enc.
           destruct (dmulti f); [apply HPm'|apply HPs']; try exact Hcf; lia.
         * apply (conf_nonnull _ _ _ Hcf).
     - (* a list *)
-      destruct t as [k|c0|e]; try discriminate.
+      destruct t as [k|k|c0|e]; try discriminate.
       unfold tdv_with, poly_target.
       assert (E : (if c_poly c then DArr e else DArr e) = DArr e) by (destruct (c_poly c); reflexivity).
       destruct (c_poly c); cbv beta iota;
@@ -378,14 +382,16 @@ Section Enc.
   Proof.
     intros HQ IH t v fuel Hd Hc Hf. destruct fuel as [|k]; [lia|].
     destruct v as [|l|d fs|xs|j]; try discriminate.
-    - cbn [conf negb andb] in Hc. destruct t as [k0|c0|e]; try discriminate.
-      cbn [o2d]. rewrite strip_arr_prim. cbv beta iota zeta.
-      apply HQ; [exact Hd|cbn [conf negb andb]; exact Hc|lia].
+    - cbn [conf negb andb] in Hc. destruct t as [k0|k0|c0|e]; try discriminate.
+      + cbn [o2d]. rewrite strip_arr_prim. cbv beta iota zeta.
+        apply HQ; [exact Hd|cbn [conf negb andb]; exact Hc|lia].
+      + cbn [o2d strip_arr]. cbv beta iota zeta.
+        apply HQ; [exact Hd|cbn [conf negb andb]; exact Hc|lia].
     - pose proof Hc as Hc'. rewrite conf_obj in Hc. cbn [negb andb] in Hc.
-      destruct t as [k0|c0|e]; try discriminate.
+      destruct t as [k0|k0|c0|e]; try discriminate.
       cbn [o2d]. rewrite strip_arr_ref. cbv beta iota zeta.
       apply HQ; [exact Hd|exact Hc'|lia].
-    - destruct t as [k0|c0|e]; try discriminate.
+    - destruct t as [k0|k0|c0|e]; try discriminate.
       assert (Hn : (1 <= n)%nat) by (cbn [vdepth] in Hd; lia).
       cbn [o2d]. rewrite strip_arr_arr.
       destruct (c_iw c) eqn:Hiw; cbv beta iota zeta.
